@@ -35,7 +35,13 @@ pub fn meta(tier: Tier) -> CheckMeta {
             "effective capacity = the policy's own window+protected+probation sum (probation is at least 1)".into(),
             "maintenance lag (two 32-message buffers) is legitimate slack".into(),
         ],
-        parts: vec![PartSpec { name: "native", nshards: 16, budget_s: tier.pick(300, 2400), env: vec![], program: None, prepare: None, sanitizer: None }],
+        parts: {
+            let mut parts = vec![PartSpec { name: "native", nshards: 16, budget_s: tier.pick(300, 2400), env: vec![], program: None, prepare: None, sanitizer: None }];
+            if tier == Tier::Thorough || true { parts.push(crate::sup::sanitizer_part("miri", 4, tier.pick(900, 2400))); }
+            if tier == Tier::Thorough { parts.push(crate::sup::sanitizer_part("tsan", 8, 2400)); }
+            if tier == Tier::Thorough { parts.push(crate::sup::sanitizer_part("asan", 8, 2400)); }
+            parts
+        },
         must_be_nonzero: vec![
             ("evictions_observed", "no eviction observed"),
             ("pinned_survived_pressure", "no pinned entry was ever under eviction pressure"),
@@ -602,18 +608,19 @@ pub fn worker(ctx: &WorkerCtx) -> Report {
     for i in 0..n {
         let mut r = base.derive(i);
         let cap = match r.below(4) {
+            _ if ctx.part == "miri" => 1 + r.usize_below(6),
             0 => 1 + r.usize_below(10),
             1 => 10 + r.usize_below(40),
             _ => 1 + r.usize_below(300),
         };
-        let universe = (cap as u32) * (4 + r.below(46) as u32) + 8;
+        let universe = if ctx.part == "miri" { (cap as u32) * 5 + 4 } else { (cap as u32) * (4 + r.below(46) as u32) + 8 };
         let c = Cfg {
             cap,
             universe,
             hot: (cap as u32 * 2).max(4),
             notify: r.chance(1, 2),
             dedicated: r.chance(1, 4),
-            len: if ctx.part == "miri" { 300 } else { ctx.pick(8_000, 60_000) },
+            len: if ctx.part == "miri" { 500 } else { ctx.pick(8_000, 60_000) },
         };
         let case = format!("tinylfu#{i} cap={cap} universe={universe} notify={} dedicated={}", c.notify, c.dedicated);
         ctx.announce(&case);
